@@ -769,6 +769,37 @@ def piv_random_cases(draw):
     return {'piv': [draw(st.integers(i, N - 1)) for i in range(N)]}
 
 
+def prop_piv_utpm(case, stats):
+    """UTPM.piv2mat / UTPM.piv2det: the pivot vectors of P directions, as UTPM.lu2 stores them (integer data (D,P,N))"""
+    pivs = [list(p) for p in case['pivs']]
+    D = case['D']
+    P_, N = len(pivs), len(pivs[0])
+    data = np.zeros((D, P_, N), dtype=int)
+    data[0] = np.array(pivs, dtype=int)
+    PIV = UTPM(data.copy())
+    W = _is_utpm(guard(UTPM.piv2mat, PIV), 'UTPM.piv2mat')
+    dt = _is_utpm(guard(UTPM.piv2det, PIV), 'UTPM.piv2det')
+    if W.data.shape != (D, P_, N, N) or dt.data.shape != (D, P_):
+        raise Violation('UTPM.piv2mat/piv2det: data shapes %s, %s; expected %s, %s' % (W.data.shape, dt.data.shape, (D, P_, N, N), (D, P_)))
+    for p, piv in enumerate(pivs):
+        Pm, sign = _model_perm(piv)
+        if not np.array_equal(W.data[0, p], Pm):
+            raise Violation('UTPM.piv2mat: direction %d, piv = %s gives\n%s\nexpected\n%s' % (p, piv, W.data[0, p], Pm))
+        if dt.data[0, p] != sign:
+            raise Violation('UTPM.piv2det: direction %d, piv = %s gives %r, expected %d' % (p, piv, dt.data[0, p].item(), sign))
+    if np.any(W.data[1:] != 0) or np.any(dt.data[1:] != 0):
+        raise Violation('UTPM.piv2mat/piv2det: higher-order coefficients of a constant permutation are not zero')
+    if PIV.data.tobytes() != data.tobytes():
+        raise Violation('UTPM.piv2mat/piv2det modified the pivot vector')
+
+
+@st.composite
+def piv_utpm_cases(draw):
+    N = draw(st.integers(1, 7))
+    P_ = draw(st.sampled_from([1, 2, 2, 3]))
+    return {'pivs': [[draw(st.integers(i, N - 1)) for i in range(N)] for _ in range(P_)], 'D': draw(st.integers(1, 3))}
+
+
 def _frac_det(A):
     """exact determinant of a binary64 matrix (Gaussian elimination over Fractions)"""
     n = A.shape[0]
@@ -886,6 +917,9 @@ def buckets(tier):
         Bucket('combine_blocks', combine_cases, prop_combine, q(200, 1500), nontrivial=_nt_combine, classes=_cl_combine, shards=q(1, 2)),
         Bucket('pivots-random', piv_random_cases, prop_piv_random, q(300, 3000), nontrivial=_nt_piv_random,
                classes=lambda c: ['N=%d' % len(c['piv'])]),
+        Bucket('pivots-utpm', piv_utpm_cases, prop_piv_utpm, q(200, 2000),
+               nontrivial=lambda c: len(c['pivs'][0]) >= 3 and any(p != i for pv in c['pivs'] for i, p in enumerate(pv)),
+               classes=lambda c: ['N=%d' % len(c['pivs'][0]), 'P=%d' % len(c['pivs'])]),
         Bucket('pivots-lu_factor', lambda: piv_lu_cases(tier), prop_piv_lu, q(300, 2500), nontrivial=_nt_piv_lu, classes=_cl_piv_lu,
                shards=q(1, 4), weight=3.0),
     ]
